@@ -15,10 +15,14 @@ import vlib  # noqa: E402
 
 def pick_docs(ctx, cases, out):
     docs = []
-    max_tok = ctx.pick(26, 60)
-    want = ctx.pick(10, 50)
+    max_tok = ctx.pick(22, 60)
+    want = ctx.pick(8, 50)
     seen = set()
-    for c in cases:
+    # documents with a multi-line token (long string / long comment / code fence) first: range formatting strips and
+    # re-applies indentation line by line, which is where such tokens are at risk
+    multi = [c for c in cases if "[[\n" in c["text"] or "```" in c["text"]]
+    rest = [c for c in cases if c not in multi]
+    for c in multi[: ctx.pick(3, 15)] + rest:
         o = out[c["id"]]
         if "in" not in o or c["text"] in seen:
             continue
@@ -29,13 +33,13 @@ def pick_docs(ctx, cases, out):
             docs.append({"case": c, "window": 0})
         elif c["src"].startswith("probe/syntax-error"):
             docs.append({"case": c, "window": 0})
-        elif c["src"].startswith("std/") and len(c["text"]) < ctx.pick(3000, 20000) and len([d for d in docs if d["window"]]) < ctx.pick(1, 4):
+        elif c["src"].startswith("std/") and len(c["text"]) < ctx.pick(3000, 20000) and len([d for d in docs if d["window"]]) < ctx.pick(0, 4):
             docs.append({"case": c, "window": 2})
     return docs
 
 
 def run(ctx):
-    cases = _fmt.gen_cases(ctx, n_single=ctx.pick(50, 300), n_sim=ctx.pick(150, 600), max_files=ctx.pick(4, 12))
+    cases = _fmt.gen_cases(ctx, n_single=ctx.pick(0, 300), n_sim=ctx.pick(120, 600), max_files=ctx.pick(0, 12))
     out = _fmt.run_formatter(ctx, cases)
     docs = pick_docs(ctx, cases, out)
     if not docs:
